@@ -1,4 +1,639 @@
 package main
 
-func c11ModelCases(r *Rng, p *c11GProg, ctxs []*c11FileCtx, files map[string]string, main string, kind string) {}
-func c11KnownWitnesses(root string)                                                                    {}
+// C11: correspondence ops between the REAL front-end functions (called in-process) and the Lean
+// model (lean/FV/Model/Compile.lean through lean/Driver/Compile.lean), the known-finding
+// witnesses, and the suite "c11ops" (casing helpers / CleanGenParam on random strings).
+
+import (
+	"fmt"
+	"os"
+	"path/filepath"
+	"regexp"
+	"sort"
+	"strconv"
+	"strings"
+	"time"
+
+	"github.com/Workiva/frugal/compiler"
+	"github.com/Workiva/frugal/compiler/generator/golang"
+	"github.com/Workiva/frugal/compiler/parser"
+)
+
+// ---------------------------------------------------------------- error classes of the front end
+
+var c11IncludeWrap = regexp.MustCompile(`^Include [^ ]+: `)
+
+var c11ErrPatterns = []struct{ pat, class string }{
+	{"Duplicate service name", "dupService"}, {"Duplicate method name", "dupMethod"},
+	{"Duplicate scope name", "dupScope"}, {"Duplicate operation name", "dupOp"},
+	{"annotation not compatible with * namespace", "vendorWildcard"}, {"Duplicate include:", "dupInclude"},
+	{"Referenced enum value ", "constRefEnum"}, {"Referenced constant ", "constRef"}, {"Invalid constant name", "constName"},
+	{"Invalid alias", "typedefType"}, {"Circular typedef", "typedefCycle"},
+	{" on struct ", "fieldType"}, {"in struct ", "dupFieldId"},
+	{"Invalid return type", "retType"}, {"Invalid argument type", "argType"}, {"Invalid exception type", "excType"},
+	{"Oneway method", "onewayThrows"}, {"Void method", "onewayReturns"}, {"in method ", "dupArgId"},
+	{"Invalid operation type", "opType"}, {"Bad include name", "badIncludeName"}, {"Circular include", "circularInclude"},
+	{"no such file or directory", "missingInclude"}, {"Invalid type ", "constType"},
+}
+
+func c11ErrClass(msg string) string {
+	for c11IncludeWrap.MatchString(msg) {
+		msg = c11IncludeWrap.ReplaceAllString(msg, "")
+	}
+	switch {
+	case strings.HasPrefix(msg, "Services ") && strings.Contains(msg, " conflict"):
+		return "conflictService"
+	case strings.HasPrefix(msg, "Methods ") && strings.Contains(msg, " conflict"):
+		return "conflictMethod"
+	case strings.HasPrefix(msg, "Scopes ") && strings.Contains(msg, " conflict"):
+		return "conflictScope"
+	case strings.HasPrefix(msg, "Operations ") && strings.Contains(msg, " conflict"):
+		return "conflictOp"
+	case strings.HasPrefix(msg, "Referenced constant ") && strings.Contains(msg, " from include "):
+		return "constRefIncluded"
+	case strings.HasPrefix(msg, "Include ") && strings.HasSuffix(msg, " not found"):
+		return "constRefInclude"
+	}
+	for _, p := range c11ErrPatterns {
+		if strings.Contains(msg, p.pat) {
+			return p.class
+		}
+	}
+	return "other(" + c11Clip(msg, 80) + ")"
+}
+
+// ---------------------------------------------------------------- decoding the program encoding
+
+type c11Toks struct {
+	t  []string
+	ok bool
+}
+
+func (s *c11Toks) next() string {
+	if len(s.t) == 0 {
+		s.ok = false
+		return ""
+	}
+	x := s.t[0]
+	s.t = s.t[1:]
+	return x
+}
+func (s *c11Toks) nat() int {
+	n, err := strconv.Atoi(s.next())
+	if err != nil || n < 0 || n > 100000 {
+		s.ok = false
+		return 0
+	}
+	return n
+}
+func (s *c11Toks) ty(depth int) *c11GTy {
+	if depth > 500 {
+		s.ok = false
+		return c11TBase("i32")
+	}
+	switch s.next() {
+	case "N":
+		return &c11GTy{name: s.next()}
+	case "L":
+		return c11TList(s.ty(depth + 1))
+	case "S":
+		return c11TSet(s.ty(depth + 1))
+	case "M":
+		k := s.ty(depth + 1)
+		return c11TMap(k, s.ty(depth+1))
+	}
+	s.ok = false
+	return c11TBase("i32")
+}
+func (s *c11Toks) fields() []*c11GField {
+	n := s.nat()
+	out := []*c11GField{}
+	for i := 0; i < n && s.ok; i++ {
+		id, err := strconv.Atoi(s.next())
+		if err != nil {
+			s.ok = false
+		}
+		name := s.next()
+		out = append(out, &c11GField{id: id, name: name, t: s.ty(0)})
+	}
+	return out
+}
+
+func c11DecodeProg(enc string) (*c11GProg, bool) {
+	s := &c11Toks{t: strings.Split(enc, "/"), ok: true}
+	p := &c11GProg{feat: map[string]bool{}}
+	nf := s.nat()
+	for i := 0; i < nf && s.ok; i++ {
+		if s.next() != "F" {
+			return nil, false
+		}
+		f := &c11GFile{name: s.next()}
+		f.vendorWild = s.next() == "1"
+		for n := s.nat(); n > 0 && s.ok; n-- {
+			f.includes = append(f.includes, s.next())
+		}
+		for n := s.nat(); n > 0 && s.ok; n-- {
+			name := s.next()
+			f.typedefs = append(f.typedefs, &c11GTypedef{name: name, t: s.ty(0)})
+		}
+		for n := s.nat(); n > 0 && s.ok; n-- {
+			e := &c11GEnum{name: s.next()}
+			for k := s.nat(); k > 0 && s.ok; k-- {
+				e.vals = append(e.vals, s.next())
+				e.nums = append(e.nums, -1)
+			}
+			f.enums = append(f.enums, e)
+		}
+		for n := s.nat(); n > 0 && s.ok; n-- {
+			kind := map[string]string{"s": "struct", "u": "union", "e": "exception"}[s.next()]
+			if kind == "" {
+				return nil, false
+			}
+			name := s.next()
+			f.structs = append(f.structs, &c11GStruct{kind: kind, name: name, fields: s.fields()})
+		}
+		for n := s.nat(); n > 0 && s.ok; n-- {
+			c := &c11GConst{name: s.next(), t: s.ty(0), val: "0"}
+			if r := s.next(); r != "-" {
+				c.ref, c.val = r, r
+			}
+			f.consts = append(f.consts, c)
+		}
+		for n := s.nat(); n > 0 && s.ok; n-- {
+			sv := &c11GService{name: s.next()}
+			if e := s.next(); e != "-" {
+				sv.ext = e
+			}
+			for k := s.nat(); k > 0 && s.ok; k-- {
+				m := &c11GMethod{name: s.next()}
+				m.oneway = s.next() == "1"
+				if len(s.t) > 0 && s.t[0] == "V" {
+					s.next()
+				} else {
+					m.ret = s.ty(0)
+				}
+				m.args = s.fields()
+				m.excs = s.fields()
+				sv.methods = append(sv.methods, m)
+			}
+			f.services = append(f.services, sv)
+		}
+		for n := s.nat(); n > 0 && s.ok; n-- {
+			sc := &c11GScope{name: s.next()}
+			for k := s.nat(); k > 0 && s.ok; k-- {
+				name := s.next()
+				sc.ops = append(sc.ops, &c11GOp{name: name, t: s.ty(0)})
+			}
+			f.scopes = append(f.scopes, sc)
+		}
+		p.files = append(p.files, f)
+	}
+	if !s.ok || len(s.t) != 0 || len(p.files) == 0 {
+		return nil, false
+	}
+	return p, true
+}
+
+// c11Structural: the same program reduced to what the encoding carries (so that a replayed
+// `val` line denotes exactly the program that was run).
+func c11Structural(p *c11GProg) *c11GProg {
+	q, ok := c11DecodeProg(p.enc())
+	if !ok {
+		panic("c11: program encoding does not decode: " + c11Clip(p.enc(), 300))
+	}
+	return q
+}
+
+// ---------------------------------------------------------------- real front end, in-process
+
+func c11ParseProg(p *c11GProg) (*parser.Frugal, string) {
+	files, order := p.render()
+	var fr *parser.Frugal
+	var err error
+	o := guard(30*time.Second, func() { fr, err = parseText(files, order[0]) })
+	switch {
+	case o != "":
+		return nil, o
+	case err != nil:
+		return nil, "err:" + c11ErrClass(err.Error())
+	}
+	return fr, "ok"
+}
+
+func c11ValReal(enc string) (string, bool) {
+	p, ok := c11DecodeProg(enc)
+	if !ok {
+		return "bad-op", true
+	}
+	_, out := c11ParseProg(p)
+	// ORACLE (independent of the model): the front end never panics and never blocks
+	return out, !strings.HasPrefix(out, "panic:") && out != "blocked"
+}
+
+func c11ShowType(t *parser.Type) string {
+	if t == nil {
+		return "<nil>"
+	}
+	switch {
+	case t.Name == "map" && t.KeyType != nil && t.ValueType != nil:
+		return "map<" + c11ShowType(t.KeyType) + "," + c11ShowType(t.ValueType) + ">"
+	case t.Name == "list" && t.ValueType != nil:
+		return "list<" + c11ShowType(t.ValueType) + ">"
+	case t.Name == "set" && t.ValueType != nil:
+		return "set<" + c11ShowType(t.ValueType) + ">"
+	}
+	return t.Name
+}
+
+func c11ToParserType(t *c11GTy) *parser.Type {
+	pt := &parser.Type{Name: t.name}
+	if t.k != nil {
+		pt.KeyType = c11ToParserType(t.k)
+	}
+	if t.v != nil {
+		pt.ValueType = c11ToParserType(t.v)
+	}
+	return pt
+}
+
+func c11FindFrugal(root *parser.Frugal, name string, seen map[*parser.Frugal]bool) *parser.Frugal {
+	if root == nil || seen[root] {
+		return nil
+	}
+	seen[root] = true
+	if root.Name == name {
+		return root
+	}
+	keys := make([]string, 0, len(root.ParsedIncludes))
+	for k := range root.ParsedIncludes {
+		keys = append(keys, k)
+	}
+	sort.Strings(keys)
+	for _, k := range keys {
+		if f := c11FindFrugal(root.ParsedIncludes[k], name, seen); f != nil {
+			return f
+		}
+	}
+	return nil
+}
+
+func c11UndReal(args []string) (string, bool) {
+	if len(args) != 3 {
+		return "bad-op", true
+	}
+	p, ok := c11DecodeProg(args[0])
+	idx, err := strconv.Atoi(args[1])
+	ts := &c11Toks{t: strings.Split(args[2], "/"), ok: true}
+	t := ts.ty(0)
+	if !ok || err != nil || idx < 0 || idx >= len(p.files) || !ts.ok || len(ts.t) != 0 {
+		return "bad-op", true
+	}
+	root, out := c11ParseProg(p)
+	if root == nil {
+		return "bad-op", true // only validated programs have a Frugal to resolve in
+	}
+	_ = out
+	fr := c11FindFrugal(root, p.files[idx].name, map[*parser.Frugal]bool{})
+	if fr == nil {
+		return "unreachable-file", true
+	}
+	var u *parser.Type
+	// the real recursion overflows the stack (fatal) if validation let a cycle through: run it in a
+	// goroutine with a watchdog AND a hop bound evaluated first through the exported step-free API
+	o := guard(20*time.Second, func() { u = fr.UnderlyingType(c11ToParserType(t)) })
+	if o != "" {
+		return o, false
+	}
+	return "ok " + c11ShowType(u), true
+}
+
+// c11ModelCases emits the correspondence cases of one generated program: the front-end verdict
+// (`val`), and typedef resolution (`und`) of every typedef name and a few used types.
+func c11ModelCases(r *Rng, p *c11GProg, ctxs []*c11FileCtx, files map[string]string, main string, kind string) {
+	sp := c11Structural(p)
+	enc := sp.enc()
+	out, fine := c11ValReal(enc)
+	Case("val "+enc, out)
+	Stat("val:" + clip(out))
+	if !fine {
+		OracleFail("front end (parse + validate) panics or blocks", map[string]interface{}{"op": "val", "line": "val " + enc, "got": out})
+	}
+	if kind == "ok" && out != "ok" {
+		OracleFail("valid program: rejected by the front end in-process", map[string]interface{}{"op": "val", "line": "val " + enc, "got": out})
+	}
+	if kind != "ok" && out == "ok" {
+		OracleFail("invalid program (checked kind): accepted by the front end", map[string]interface{}{"op": "val", "line": "val " + enc, "kind": kind})
+	}
+	if out != "ok" {
+		return
+	}
+	for i, f := range sp.files {
+		tys := []*c11GTy{}
+		for _, td := range f.typedefs {
+			tys = append(tys, &c11GTy{name: td.name})
+		}
+		for _, inc := range f.includes {
+			in := strings.TrimSuffix(inc, ".frugal")
+			for _, g := range sp.files {
+				if g.name == in {
+					for _, td := range g.typedefs {
+						tys = append(tys, &c11GTy{name: in + "." + td.name})
+					}
+				}
+			}
+		}
+		for _, s := range f.structs {
+			for _, fl := range s.fields {
+				if r.Chance(30) {
+					tys = append(tys, fl.t)
+				}
+			}
+		}
+		if len(tys) > 14 {
+			for k := len(tys) - 1; k > 0; k-- {
+				j := r.Intn(k + 1)
+				tys[k], tys[j] = tys[j], tys[k]
+			}
+			tys = tys[:14]
+		}
+		for _, t := range tys {
+			tt := []string{}
+			t.enc(&tt)
+			args := []string{enc, strconv.Itoa(i), strings.Join(tt, "/")}
+			o, fine := c11UndReal(args)
+			if o == "unreachable-file" {
+				continue // not included (transitively) by the main file: never parsed
+			}
+			Case("und "+strings.Join(args, " "), o)
+			Stat("evaluations")
+			Stat("und:" + clip(o))
+			if !fine {
+				OracleFail("typedef resolution of a validated program panics or does not terminate", map[string]interface{}{"op": "und", "line": "und " + strings.Join(args, " "), "got": o})
+			}
+		}
+	}
+}
+
+// ---------------------------------------------------------------- casing helpers and CleanGenParam
+
+func c11Guarded(f func() string) (string, bool) {
+	res := ""
+	o := guard(10*time.Second, func() { res = f() })
+	if o != "" {
+		return o, false
+	}
+	return res, true
+}
+
+func c11AsciiOnly(b []byte) bool {
+	for _, c := range b {
+		if c >= 0x80 {
+			return false
+		}
+	}
+	return true
+}
+
+func c11StrOp(f func(string) string) func(args []string) (string, bool) {
+	return func(args []string) (string, bool) {
+		if len(args) != 1 {
+			return "bad-op", true
+		}
+		b := unhxSafe(args[0])
+		if b == nil || !c11AsciiOnly(b) {
+			return "bad-op", true
+		}
+		return c11Guarded(func() string { return "ok " + hx([]byte(f(string(b)))) })
+	}
+}
+
+func c11CgpReal(args []string) (string, bool) {
+	if len(args) != 1 {
+		return "bad-op", true
+	}
+	b := unhxSafe(args[0])
+	if b == nil || !c11AsciiOnly(b) {
+		return "bad-op", true
+	}
+	return c11Guarded(func() string {
+		lang, opts, err := compiler.CleanGenParam(string(b))
+		if err != nil {
+			if strings.HasPrefix(err.Error(), "Unknown option") {
+				return "err:unknownOption"
+			}
+			return "err:other"
+		}
+		keys := make([]string, 0, len(opts))
+		for k := range opts {
+			keys = append(keys, k)
+		}
+		sort.Strings(keys)
+		parts := []string{}
+		for _, k := range keys {
+			parts = append(parts, hx([]byte(k))+"="+hx([]byte(opts[k])))
+		}
+		o := "-"
+		if len(parts) > 0 {
+			o = strings.Join(parts, ";")
+		}
+		return "ok " + hx([]byte(lang)) + " " + o
+	})
+}
+
+var c11IdentAlphabet = []string{"_", "_", "_", "a", "b", "z", "A", "Z", "x", "1", "9", "id", "ID", "Id", "url", "http", "Https", "api", "utf8",
+	"new", "New", "args", "Args", "Result", "result", "foo", "Bar", ".", "/", ":", ",", "=", " ", "go", "py", "async", "slim", "package_prefix", "indent"}
+
+func c11RandIdent(r *Rng) string {
+	n := r.Pick(0, 1, 1, 2, 2, 3, 3, 4, 5, 7)
+	var b strings.Builder
+	for i := 0; i < n; i++ {
+		k := r.Intn(len(c11IdentAlphabet) - 14)
+		if r.Chance(8) {
+			k = r.Intn(len(c11IdentAlphabet))
+		}
+		b.WriteString(c11IdentAlphabet[k])
+	}
+	return b.String()
+}
+
+func c11RandGen(r *Rng) string {
+	langs := []string{"go", "java", "py", "dart", "json", "html", "cpp", ""}
+	optsAll := []string{"async", "slim", "package_prefix=a/b", "package_prefix=", "use_vendor", "indent", "standalone", "asyncio", "tornado",
+		"bogus", "", "=", "a=b=c", "library_prefix=x.y", "generated_annotations=undated"}
+	s := langs[r.Intn(len(langs))]
+	n := r.Pick(0, 0, 1, 1, 2, 3)
+	for i := 0; i < n; i++ {
+		sep := ","
+		if i == 0 {
+			sep = ":"
+		}
+		if r.Chance(5) {
+			sep = ":"
+		}
+		s += sep + optsAll[r.Intn(len(optsAll))]
+	}
+	if r.Chance(5) {
+		s += ":"
+	}
+	return s
+}
+
+func runC11Ops(r *Rng, n int) {
+	ops := []string{"stc", "ttl", "tsn", "lfl", "i2r", "cgp"}
+	for i := 0; i < n; i++ {
+		op := ops[r.Intn(len(ops))]
+		var line string
+		switch op {
+		case "tsn":
+			line = "tsn " + hx([]byte(c11RandIdent(r))) + " " + hx([]byte(c11RandIdent(r)))
+		case "cgp":
+			line = "cgp " + hx([]byte(c11RandGen(r)))
+		default:
+			line = op + " " + hx([]byte(c11RandIdent(r)))
+		}
+		parts := strings.Split(line, " ")
+		o, fine := lineOps[op](parts[1:])
+		Case(line, o)
+		Stat("evaluations")
+		Stat(op + ":" + clip(o))
+		// ORACLE: the casing helpers of the Go generator and CleanGenParam never panic, whatever
+		// the string; LowercaseFirstLetter / includeNameToReference may only panic on inputs the
+		// grammar cannot produce (empty name; no non-separator character).
+		if !fine {
+			arg := string(unhxSafe(parts[1]))
+			guardedByGrammar := (op == "lfl" && arg == "") || (op == "i2r" && strings.Trim(arg, "./") == "")
+			if guardedByGrammar {
+				Stat(op + ":panics-only-outside-the-grammar")
+				continue
+			}
+			OracleFail("front-end helper panics: "+op, map[string]interface{}{"op": op, "line": line, "got": o, "arg": arg})
+		}
+		if i < 3 {
+			Sample(map[string]interface{}{"line": line, "arg": string(unhxSafe(parts[1])), "real": o})
+		}
+	}
+}
+
+// ---------------------------------------------------------------- known findings
+
+// One witness directory per finding under /verif/known/c11_<id>/ (main file prog.frugal).
+type c11Finding struct {
+	id     string
+	gen    string // target the witness fails for
+	expect string // "valid": the witness is valid IDL and must compile into well-formed output
+	what   string
+}
+
+var c11Findings = []c11Finding{
+	{"typedef-second-hop-in-include", "go", "valid", "typedef chain whose second hop lives in an included file (base.userId -> id -> i64): UnderlyingType looks the second hop up in the including file; Go output (*base.UserId, NewID()) does not type-check"},
+	{"go-noncomparable-container-key", "go", "valid", "set<binary>, map<binary,_>, set<list<_>>, map<list<_>,_> are emitted as Go maps with slice keys: compiler exits 0, output does not type-check"},
+	{"prefix-token-format-chars", "go", "valid", "a static scope-prefix token containing % \" ' \\ or $ is pasted into format strings / string literals: unparsable or wrong output"},
+	{"keyword-prefix-identifier", "go", "valid", "an identifier with a base-type/void/oneway/required/optional keyword as a proper prefix (struct stringy) is mis-tokenised: syntax error for valid IDL"},
+	{"binary-constant-not-escaped", "dart", "valid", "a binary constant/default containing a quote or backslash is pasted unescaped into a string literal (Go []byte(\"..\"), Java \"..\".getBytes(), Dart utf8.encode('..'))"},
+	{"i8-base-type", "java", "valid", "i8 passes validation (frugalBaseTypes) but the Java and Python generators panic on it (shouldn't happen: i8 / unrecognized type: i8)"},
+	{"typedef-of-enum", "java", "valid", "a field whose type is a typedef of an enum makes the Java and Python generators panic (recovered: exit 1 for valid IDL)"},
+	{"go-typedef-of-struct", "go", "valid", "typedef of a struct used as a field/argument type: Go emits `type T S` (no methods) and NewS() assigned to *T: does not type-check"},
+	{"html-nonstring-map-key", "html", "valid", "a map constant/default with non-string keys: html formatValue fails (non-string type int64 as a key), exit 1"},
+	{"python-empty-service", "py:asyncio", "valid", "a service without methods: Python emits `class Iface(object):` with an empty body (IndentationError)"},
+	{"go-screaming-caps-name", "go", "valid", "a type or throws-field name in SCREAMING_CAPS with an underscore is declared as written (title) but referenced in camel case (snakeToCamel): undefined name in Go"},
+	{"go-new-args-result-names", "go", "valid", "names that camel-case to New…/…Args/…Result get a `_` suffix where they are declared and none where they are used (struct NewThing referenced from another file, throws field thing_args)"},
+	{"go-struct-constant-optional-field", "go", "valid", "a struct constant/default that sets an optional field: Go emits a value for a pointer field (cannot use … as *T value in struct literal)"},
+	{"go-extends-service-name-case", "go", "valid", "service X extends lowercase_name: the parent client is referenced as F<name as written>Client but declared camel-cased"},
+	{"go-duplicate-exception-type", "go", "valid", "throws (1: E a, 2: E b): duplicate case *E in the generated type switch"},
+	{"java-container-constant-reference", "java", "valid", "const list<i32> b = a (a constant of container type referring to another constant): Java generator panics (interface conversion)"},
+	{"unchecked-semantic-errors", "json", "invalid", "duplicate struct/enum/typedef/constant/field names, constant values of the wrong type, unknown extends, duplicate ids in throws are not validated: exit 0 (or a recovered panic) for invalid IDL"},
+}
+
+func c11KnownDir(id string) string {
+	return filepath.Join(c11VerifDir(), "known", "c11_"+strings.Replace(id, "-", "_", -1))
+}
+
+// c11KnownWitnesses replays every recorded witness: Known(id, …) while it still fails.
+func c11KnownWitnesses(root string) {
+	for _, fd := range c11Findings {
+		dir := c11KnownDir(fd.id)
+		ents, err := os.ReadDir(dir)
+		if err != nil {
+			OracleFail("known-finding witness directory missing: "+dir, map[string]interface{}{"id": fd.id})
+			continue
+		}
+		files := map[string]string{}
+		order := []string{"prog.frugal"}
+		for _, e := range ents {
+			if strings.HasSuffix(e.Name(), ".frugal") {
+				b, _ := os.ReadFile(filepath.Join(dir, e.Name()))
+				files[e.Name()] = string(b)
+				if e.Name() != "prog.frugal" {
+					order = append(order, e.Name())
+				}
+			}
+		}
+		if _, ok := files["prog.frugal"]; !ok {
+			OracleFail("known-finding witness has no prog.frugal: "+dir, map[string]interface{}{"id": fd.id})
+			continue
+		}
+		wroot := filepath.Join(root, "known-"+fd.id)
+		idl := filepath.Join(wroot, "idl")
+		c11WriteFiles(idl, files)
+		var t c11Target
+		for _, x := range c11Targets {
+			if x.lang == fd.gen {
+				t = x
+			}
+		}
+		j := &c11Job{tag: "k0", target: t, outDir: filepath.Join(wroot, "out"), bundle: c11Bundle(files, order), expect: fd.expect}
+		gm := &c11GoMod{dir: filepath.Join(wroot, "unused")}
+		if t.kind == "go" {
+			gm, err = c11NewGoMod(wroot)
+			if err != nil {
+				continue
+			}
+			j.outDir = filepath.Join(gm.dir, "gen", "k0")
+		}
+		j.gen = c11GenArg(t, nil, c11ModName+"/gen/k0/")
+		j.run = c11Compile(idl, "prog.frugal", j.gen, j.outDir)
+		if j.run.class == "ok" && fd.expect == "valid" {
+			if err := c11CheckOutputs(wroot, gm, []*c11Job{j}); err != nil {
+				fmt.Fprintln(os.Stderr, "c11: checker failure on a known witness:", err)
+				os.Exit(3)
+			}
+		}
+		if what := c11Verdict(j); what != "" {
+			if j.run.class == "crash" || j.run.class == "hang" {
+				c11Report(j, "known-finding witness "+fd.id+": "+what, nil) // never tolerated
+			} else {
+				Known(fd.id, fd.what)
+				Stat("known-witness-still-fails:" + fd.id)
+			}
+		} else {
+			Stat("known-witness-now-passes:" + fd.id)
+		}
+		os.RemoveAll(wroot)
+	}
+}
+
+func init() {
+	suites["c11ops"] = runC11Ops
+	lineOps["stc"] = c11StrOp(golang.VerifSnakeToCamel)
+	lineOps["ttl"] = c11StrOp(golang.VerifTitle)
+	lineOps["lfl"] = c11StrOp(parser.LowercaseFirstLetter)
+	lineOps["i2r"] = c11StrOp(golang.VerifIncludeNameToReference)
+	lineOps["tsn"] = func(args []string) (string, bool) {
+		if len(args) != 2 {
+			return "bad-op", true
+		}
+		a, b := unhxSafe(args[0]), unhxSafe(args[1])
+		if a == nil || b == nil || !c11AsciiOnly(a) || !c11AsciiOnly(b) {
+			return "bad-op", true
+		}
+		return c11Guarded(func() string { return "ok " + hx([]byte(golang.VerifTitleServiceName(string(a), string(b)))) })
+	}
+	lineOps["cgp"] = c11CgpReal
+	lineOps["val"] = func(args []string) (string, bool) {
+		if len(args) != 1 {
+			return "bad-op", true
+		}
+		return c11ValReal(args[0])
+	}
+	lineOps["und"] = c11UndReal
+}
